@@ -120,10 +120,14 @@ CasesE == {Case("E", tr, "GET", "/plain/x", "NONE", {"ua"}, "none", st, sf, sb) 
 \* a client that asks for gzip itself gets the origin's gzip stream untouched
 CasesF == {Case("F", tr, "GET", "/plain/x", "NONE", {"ua", "ae_gzip"}, "none", 200, {"ctype", "gz"} \cup x, sb) :
               tr \in Transports, x \in {{}, {"cachectl"}}, sb \in {"sized", "chunked"}}
+\* an origin whose status line carries a number that is no status code (Go's HTTP client lets 000..099 through): it cannot be
+\* relayed, and the client must still get a well-formed answer, a 5xx of the proxy's own
+CasesG == {Case("G", tr, m, "/plain/x", "NONE", {"ua"}, "none", st, {}, "empty") : tr \in Transports, m \in {"GET", "HEAD"}, st \in {0, 99}}
 Valid(c) == /\ ReqFeatOK(c.rf) /\ c.rbody \in ReqBodies(c.method) /\ c.sbody \in RespBodies(c.status, c.method)
 Cases == {c \in (IF "A" \in Slices THEN CasesA ELSE {}) \cup (IF "B" \in Slices THEN CasesB ELSE {})
                 \cup (IF "C" \in Slices THEN CasesC ELSE {}) \cup (IF "D" \in Slices THEN CasesD ELSE {})
-                \cup (IF "E" \in Slices THEN CasesE ELSE {}) \cup (IF "F" \in Slices THEN CasesF ELSE {}) : Valid(c)}
+                \cup (IF "E" \in Slices THEN CasesE ELSE {}) \cup (IF "F" \in Slices THEN CasesF ELSE {})
+                \cup (IF "G" \in Slices THEN CasesG ELSE {}) : Valid(c)}
 CaseSeq == SetToSeq(Cases)
 Wire(items) == [i \in 1..Len(items) |-> [w |-> items[i].w, v |-> items[i].v]]
 Loc(st) == IF Redirect(st) THEN << Item("location", "Location", "/redirect-target") >> ELSE <<>>
@@ -161,6 +165,7 @@ OwnBad(obs) == {n \in {"x-cache", "cache-status"} : Len(F(obs, n, <<>>)) > 1}
 WantBody(c) == IF c.method = "HEAD" THEN "empty" ELSE c.sbody
 Cats(c, r) ==
     IF F(r, "err", "") # "" THEN {"no_answer"}
+    ELSE IF c.status < 100 THEN (IF r.c_status \in 500..599 THEN {} ELSE {"resp_status"})
     ELSE (IF r.o_method = c.method THEN {} ELSE {"req_method"})
          \cup (IF r.o_path = c.path THEN {} ELSE {"req_path"})
          \cup (IF r.o_query = c.query THEN {} ELSE {"req_query"})
